@@ -124,6 +124,14 @@ theorem C04_subset (S : Str → Bool) (vf : Err → Str) (e : Err) (path : List 
       encode (Sub S) vf e' = encode Full vf e ∧ text e' = text e :=
   hopQ_ok S vf e path h hf
 
+/-- … and keeps the origin's cause-tree shape (branch count and order), and at every layer the
+    origin's type name and mark (`names`: read off the wire by `wireNames_encode`, which holds of
+    every process and every error) -/
+theorem C04_subset_names (S : Str → Bool) (vf : Err → Str) (e : Err) (path : List Nat)
+    (h : stable e = true) (hf : faithful e = true) :
+    ∃ e', decode (Sub S) path (encode Full vf e) = some e' ∧ names Full e' = names Full e :=
+  hopQ_names S vf e path h hf
+
 /-- a chain of intermediaries, each knowing its own subset of the types: each decodes the
     message and re-encodes what it decoded -/
 def relay (vf : Err → Str) : List (Str → Bool) → Enc → Option Enc
